@@ -14,6 +14,8 @@ CLAIMED['C02'] = ('the /certgen/ endpoint executed end-to-end from SSA down to t
     'library parsers, shell.Expand and signing calls are uninterpreted functions of their actual arguments; that signatures verify under the published keys is outside (x/crypto arithmetic); checkAuth admits an arbitrary user (C01/C06)')
 CLAIMED['C10'] = ('the strength predicate executed from SSA (crypto/rsa Size from its own SSA) over every dynamic key type x RSA bit length 0..16384 x every exponent x every parser-producible curve; every issuing handler (SSH, X.509, Kubernetes, automation, refresh, cloud-role) executed end-to-end: z3 decides that each signing sink receives a key term for which the predicate returned true, weak keys get a 4xx status, and no path panics; the address-extension decoder over every asn1-well-formed bit string (BitLength 0..64)',
     'third-party parsers are uninterpreted functions (their byte-level robustness is a fuzzer\'s subject, outside this technique); counterexamples of the kernels are replayed natively')
+CLAIMED['C11'] = ('encode/decode of the address extension, VerifyIPRestrictedX509CertIP and the daemon-side callers executed from SSA together with net.IPNet.Contains / IPv4 / CIDRMask / IPMask.Size / IP.To4 from the net package\'s own SSA: every prefix 0..32 x every address byte (round trip), every block list up to the bound x every BitLength 0..64 x every peer (membership both directions, IPv6 / unparsable / malformed never admitted, no panic), the daemon verifies (leaf, TCP peer address), refresh keeps identity and netblocks, and the gate lemma for the refresh endpoint',
+    'asn1 marshal/unmarshal = identity on the family list subject to the BIT STRING length invariant; net.ParseIP / SplitHostPort contracts; block lists bounded (1x1, 1x2 quick; 2x1 thorough); counterexamples replayed natively')
 NA_REASON = {}
 checks = []
 for pid in ALL:
